@@ -33,6 +33,10 @@ CLAIMED.update({
   "C12": "Client transactions on the real Client/Transaction code with goroutines as cooperative threads: 7 transmissions at RTO, doubling, capped 1.6 s for every RTO in (0,1.6 s]; completion exactly once by the response with the matching id (any id symbolic), duplicates/strangers ignored; Close and write errors release the caller; nothing left in the table.",
   "C13": "Relayed socket: data only after a CreatePermission success (all server reactions, up to 3 attempts), ChannelData only on a binding the server confirmed for that exact peer/number, own number per peer in range; ReadFrom returns queued payloads unchanged, honours deadline and Close; inbound queues never block.",
 })
+CLAIMED.update({
+  "C17": "Both credential generators against the matching handlers with the clock, duration, secret, user and realm symbolic (IA arithmetic): accepted at every instant up to the expiry time, rejected from one second after it; the returned key is the same term as GenerateAuthKey(username, realm, generated password); REST user id is the user part; non-numeric usernames rejected. HMAC/MD5/base64 are uninterpreted functions.",
+  "C20": "All three generators over a fake transport.Net: every bind attempt of the port-range generator lies in [MinPort, MaxPort] for all 2^32 configurations with MinPort <= MaxPort and all random outputs (Intn argument always positive), advertised IP is the configured one, advertised port is the bound port, requested ports pass through, failure leaves nothing open.",
+})
 NA = {}
 ALL = ["C%02d" % i for i in range(1, 21)]
 for p in ALL:
